@@ -1285,7 +1285,7 @@ reg(Spec(
          "(equality for Q, C16 bound for floating types); the shadow of an "
          "in-place target is updated by the model so drift over a history is "
          "caught. " + POOL_NT,
-    required=["scalar-fault:completed", "place:add:" + p for p in PLACEMENTS] +
+    required=["scalar-fault:completed"] + ["place:add:" + p for p in PLACEMENTS] +
              ["place:mul:" + p for p in PLACEMENTS] +
              ["place:add-assign:" + p for p in PLACEMENTS] +
              ["c03:checked:" + k for k in (
